@@ -267,5 +267,5 @@ def e_quick(c):
 
 PARTS = [
     Part("fiber", e_case, s_case(quick=True), quick=70, thorough=0, shards=1, quick_shards=8, shrink=False, timeout=60, rule="phi_max >= 5e-3 (quick tier)"),
-    Part("fiber_deep", e_case, s_case(quick=False), quick=0, thorough=250, shards=16, shrink=False, timeout=120, rule="phi_max down to 5e-4 (thorough tier)"),
+    Part("fiber_deep", e_case, s_case(quick=False), quick=0, thorough=1500, shards=16, shrink=False, timeout=120, rule="phi_max down to 5e-4 (thorough tier)"),
 ]
